@@ -295,8 +295,11 @@ def run_history(sc, kind, unix, rng, hidx):
                  ("threadpool", False): ("patient", True), ("threadpool", True): ("rewrap", "patient"),
                  ("forking", False): (True, "rewrap"), ("forking", True): ("rewrap", True)}.get((kind, unix), (True, "rewrap"))[hidx % 5 - 3]
         auth = ring[(ring.index(first) + hidx // 5) % 3]
+    # every fifth history: a client connects at the very moment close() is called (the thread that takes it off the listener is
+    # held up for a moment, see RV_ACCEPT_PAUSE): whatever close() and the accept loop make of it, a closed server serves nobody
+    late_connect = hidx % 5 == 2 and kind in ("threaded", "threadpool") and not auth
     try:
-        sp = rn.ServerProc(kind, unix=unix, auth=auth)
+        sp = rn.ServerProc(kind, unix=unix, auth=auth, accept_pause=late_connect)
     except rn.ChildError as e:
         sc.inconclusive("could not start %s/%s: %s" % (kind, transport, str(e)[:300]))
         return
@@ -376,6 +379,16 @@ def run_history(sc, kind, unix, rng, hidx):
                 break
             before = again
         # ---------------------------------------------------------------- close
+        if late_connect:
+            lc = Client(sp, "raw", 900)
+            try:
+                lc.connect()             # returns when the kernel has completed the handshake; the server has yet to accept it
+                clients.append(lc)
+                stayers.append(lc)
+                plan2.append(("raw", "connects as close() is called"))
+                sc.count("closes_with_a_client_arriving_at_that_moment")
+            except OSError:
+                pass
         rep = sp.close_server()
         t_closed = time.time()
         sc.count("server_closes")
